@@ -219,6 +219,15 @@ fn many_preimages(ctx: &mut Ctx) {
 
 fn main() {
     run_main("C15", |ctx| {
+        ctx.first_use_race(3, |t| {
+            let pairs: Vec<(Seq<Dna>, Amino)> = [("AAA", Amino::K), ("AAG", Amino::K), ("ATG", Amino::M), ("TGG", Amino::W), ("GCT", Amino::A)][..3 + t % 3].iter().map(|(c, a)| (Seq::<Dna>::try_from(*c).unwrap(), *a)).collect();
+            let table: CodonTable<Dna, Amino> = CodonTable::from_map(pairs.into_iter().collect::<std::collections::HashMap<_, _>>());
+            let q: Seq<Dna> = "AAAATGTGGCCC".try_into().unwrap();
+            (
+                q.chunks(3).map(|c| table.try_to_amino(c).map(|a| a.to_char()).map_err(|e| e.to_string())).collect::<Vec<_>>(),
+                [Amino::K, Amino::M, Amino::W, Amino::A, Amino::C].iter().map(|a| table.try_to_codon(*a).map(|c| c.to_string()).map_err(|e| e.to_string())).collect::<Vec<_>>(),
+            )
+        });
         run::<Dna>(ctx);
         run::<Iupac>(ctx);
         many_preimages(ctx);
